@@ -278,3 +278,18 @@ Theorem C08_abf_coupling :
         vget Rops (s_sum (fst (abf_run Rops (set_other c o') h')) b) k = vget Rops (s_sum (fst (abf_run Rops c h)) b) k.
 Proof. exact abf_data_independent_of_other_biases. Qed.
 Print Assumptions C08_abf_coupling.
+
+(* ... and so is the force the ABF bias computes at every step (the step i after any history h): with the estimator and
+   the force of the force-reading bias unchanged by the other biases, the pair superposes exactly (colvar::f = ABF force
+   + the others' force in C04's st_f; the others never read total forces: C08_superposition). *)
+Theorem C08_abf_force_coupling :
+  forall (c : @abf_cfg R) (o' : list bool),
+    c_same_step c = false ->
+    (forall k, (k < c_nd c)%nat -> bget (c_subtract c) k = true) ->
+    forall (h h' : list (@abf_in R)) (i i' : @abf_in R) (k : nat),
+      wf_cfg c -> Forall2 same_but_other (h ++ [i]) (h' ++ [i']) ->
+      (k < c_nd c)%nat -> (0 <= c_min c < c_full c)%Z -> (c_cap c = true -> 0 <= vget Rops (c_maxf c) k) ->
+      vget Rops (o_fabf (snd (abf_step Rops (set_other c o') (fst (abf_run Rops (set_other c o') h')) i'))) k
+      = vget Rops (o_fabf (snd (abf_step Rops c (fst (abf_run Rops c h)) i))) k.
+Proof. exact abf_force_independent_of_other_biases. Qed.
+Print Assumptions C08_abf_force_coupling.
